@@ -89,6 +89,17 @@ class VRefMap:
         return VRefMap(self.arr, self.valkind)
 
 
+class VPredSet:
+    """a set of ints / strings known only through its membership predicate (result of a set comprehension over a symbolic
+    list): member(x) is an uninterpreted Boolean function, every element the comprehension produces is a member"""
+
+    def __init__(self, member, kind):
+        self.member, self.kind = member, kind
+
+    def copy(self):
+        return self
+
+
 class VOptRefMap:
     """dict from opaque refs to Optional[ref] (a cache of possibly absent results): three arrays -- key present, stored
     value is None, stored value"""
